@@ -127,6 +127,13 @@ def orchestrator_oracles(ops, cls_size):
         for reg, h in op.H.items():
             if reg in req and req[reg] <= 4096 and "al" in h and h["al"] % req[reg] != 0:
                 out.append(("align-req", i, "%s as_ptr mod %d = %d after `%s`" % (reg, req[reg], h["al"] % req[reg], op.line)))
+        if before is not None and after is None:
+            # the register is borrowed by the iterator it just handed out (drain / splice / drain_filter) or was consumed
+            mr0 = must_reject(op, before[0], before[1])
+            if mr0 is True and res != "panic":
+                out.append(("accept-predicate", i, "`%s` on len=%d cap=%d must be rejected, got `%s`" % (op.line, before[0], before[1], res)))
+            if mr0 is False and res == "panic":
+                out.append(("accept-predicate", i, "`%s` on len=%d cap=%d must be accepted, but panicked" % (op.line, before[0], before[1])))
         if before is None or after is None:
             # constructors
             if n == "with_capacity" and res == "ok" and after is not None and after[1] != int(a[1]):
@@ -174,6 +181,12 @@ def orchestrator_oracles(ops, cls_size):
             pass
         if l1 > c1:
             out.append(("reserve-contract", i, "len %d > capacity %d after `%s`" % (l1, c1, op.line)))
+        # --- O(log n) growth: one extend/collect of n pushed elements may resize at most log2(n) + 3 times
+        if n in ("extend", "collect") and l1 > 64:
+            import math
+            grows = len([e for e in op.events if e[0] in "AR"])
+            if grows > math.ceil(math.log2(l1)) + 1:
+                out.append(("log-resizes", i, "`%s`: %d allocator requests for %d pushed elements" % (op.line[:40], grows, l1)))
         # --- storage stability
         removing = n in ("pop", "remove", "swap_remove", "truncate", "clear", "retain", "dedup", "dedup_by", "dedup_by_key", "remove_item")
         adding = n in ("push", "insert", "extend", "extend_from_slice", "extend_from_within", "append", "resize", "resize_with")
